@@ -227,7 +227,6 @@ def builtin_names(repo):
 KEYWORDS = [
     # docstring keyword -> identifiers one of which the implementation must use
     ("dilated", {"area_height", "area_width", "dilation"}),
-    ("stride", {"stride", "strides", "get_kernel_stride"}),
 ]
 
 
@@ -272,7 +271,7 @@ def run(repo, rep):
                     hit = any(any(w in i.lower() for w in need) for i in ids)
                     rep.check(hit, "C16-b", f"{path}:{clsname}.{nm}", f"text mentions '{kw}': implementation uses one of {sorted(need)}",
                               "the implementation does not touch the quantity its documented text names")
-    rep.floor("C16-b", 110)
+    rep.floor("C16-b", 100)
 
     # ---------------------------------------------------------------- a: report vs registrations
     def match_list(section, want, site):
